@@ -29,8 +29,12 @@ UNIVERSES = {
     "intfloat": [1, 2.5, 3, 4.5, -1, 0.25, 100, 7],
     "npfloat": [np.float64(x) for x in (0.5, 1.5, 2.25, -3.75, 10.5, 7.125, 0.1, 99.9)],
 }
+# label kinds that only SOME containers / functions accept (never drawn at random from UNIVERSES; asked for by name)
+EXTRA_UNIVERSES = {
+    "tuple": [(0, 0), (0, 1), (1, 0), (1, 1), (2, 0), (0, 2), (1, 2), (2, 1)],  # e.g. grid coordinates: comparable, hashable
+}
 LAYERS = [["L1", "L2"], ["a", "b", "c"], ["x", "y", "z", "E"], ["social", "work"], ["", "b"], [0, 1, 2]]
-WEIGHTS = [0.5, 1, 1.5, 2, 2.5, 3, 7, 2.0, 1.0, 0, 0.0, 0.1, 0.2, 1 / 3, 4e-12, 3e-12]
+WEIGHTS = [0.5, 1, 1.5, 2, 2.5, 3, 7, 2.0, 1.0, 0, 0.0, 0.1, 0.2, 1 / 3, 4e-12, 3e-12, 2**53 + 1, 2**60 + 3]  # (the last two: integers no float represents)
 MDS = [None, {}, {"a": 1}, {"c": "x"}, {"a": 2, "n": {"k": [1, 2]}}, {"role": "hub", "t": None}]
 FIELDS = ["a", "c", "f", "role"]
 VALUES = [0, 1, "v", [1, 2], {"q": 1}, None, 2.5, "", False]
@@ -50,7 +54,7 @@ class Cfg:
         self.kind = kind
         self.weighted = rng.random() < 0.5 if weighted is None else weighted
         self.uni_name = uni or rng.choice(list(UNIVERSES))
-        u = list(UNIVERSES.get(self.uni_name, UNIVERSES["gaps"]))
+        u = list(UNIVERSES.get(self.uni_name) or EXTRA_UNIVERSES.get(self.uni_name) or UNIVERSES["gaps"])
         rng.shuffle(u)
         self.labels = u[: rng.randint(3, 8)]
         self.layers = rng.choice(LAYERS)
@@ -188,7 +192,7 @@ def gen_op(rng, cfg, S):
     invalid = rng.random() < cfg.invalid_rate
     ekeys = sorted(S.edges, key=lambda k: repr(sorted_key(k)))
     nkeys = sorted(S.nodes, key=repr)
-    absent_nodes = [n for n in (UNIVERSES[cfg.uni_name] if cfg.uni_name in UNIVERSES else cfg.labels) if n not in S.nodes]
+    absent_nodes = [n for n in (UNIVERSES.get(cfg.uni_name) or EXTRA_UNIVERSES.get(cfg.uni_name) or cfg.labels) if n not in S.nodes]
 
     if name == "add_node":
         pool = cfg.labels if rng.random() < 0.7 or not nkeys else nkeys
